@@ -269,6 +269,20 @@ CLAIMS: dict[str, tuple[str, str, str, str]] = {
         "Lean 4 proof (frame invariant of the dispatch loop under rule contracts) + contract monitoring + concatenation oracle",
         "§6 C07",
     ),
+    "C20": (
+        "PARTIAL: the guard mechanisms are theorems — depth_guard_block/depth_guard_inline (at level >= maxNesting no rule "
+        "is dispatched: nesting beyond the limit is cut, not recursed into), block_dispatch_bound/block_dispatch_linear (a "
+        "block loop dispatches at most one chain per line of its range), skip_memo/skip_evals_le (skipToken evaluates the "
+        "chain at most once per position). NOT PROVED (kept visible as C20.Statement): the global bound 'work <= c*|src| on "
+        "every family' — the amortised analysis of processDelimiters, parseLinkLabel, the backtick cache and the reference "
+        "rule is out of reach; it is decided by measurement on the implementation: executed source lines + calls inside "
+        "markdown_it (sys.settrace; calls only for the nesting families, at 5x length) for ~55 families at L, 2L, 4L on both "
+        "presets; per-character work may grow by at most 17.5 % per doubling. Known findings D9 (reference definitions) and "
+        "K-C20-2 (smartquotes opener stack). Tie: dispatch counts of real block loops and the real skipToken cache.",
+        NOTE + "The measured work depends on CPython's line-event granularity; thresholds are ratios, not absolute counts.",
+        "Lean 4 proof of the guards (cost-instrumented loop, memo table) + measured growth ratios on the implementation",
+        "§6 C20",
+    ),
 }
 
 PENDING_REASON = "check under construction in this session (Lean model + theorems not yet committed); not claimed until its check exists"
